@@ -320,7 +320,17 @@ def _uses_guarded_nonnull(f, tt, ph):
                 return False
             ok = True
         elif u.op == 'phi':
-            return False
+            # "if (buf != NULL) dst = buf; else dst = fallback;": the phi may flow on only along edges that assert buf != NULL
+            for bid, x in u.incoming:
+                if strip_casts(x).k == 'i' and strip_casts(x).inst is ph:
+                    pb = f.bmap[bid]
+                    at = list(atoms_at(f, tt, pb))
+                    for s4, lab in out_edges(pb):
+                        if s4 is u.block and lab and lab[0] == 'br':
+                            at.extend(cond_atoms(tt, lab[1], lab[2]))
+                    if not has_atom(at, 'ne', pt, ('const', 0)):
+                        return False
+                    ok = True
     return ok
 
 
